@@ -17,12 +17,20 @@
 (*                                      harness does it from the hook, so  *)
 (*                                      the position is exact)             *)
 (*   [e |-> "end", ok]                  the run returned (ok = no error)   *)
+(* Each step also carries tos, the value on top of the frame's stack before  *)
+(* the instruction (integers, strings, booleans, null, small arrays of     *)
+(* those; <<"U">> = not logged), and the programs carry their constants    *)
+(* (cvals).  The specification keeps an abstract value stack per frame:    *)
+(* wherever the operands of an instruction are known, the value the real   *)
+(* machine produced must be the one EFValues defines (Bin / Un / Truthy),  *)
+(* a conditional jump must go the way the truth of its operand says, and   *)
+(* an operation EFValues defines to fail must end the run with an error.   *)
 (* Every step must be a step the machine allows from the state reached by  *)
 (* the steps before it; after a cancellation no further instruction may be *)
 (* dispatched and the run must end with an error (C09); when a run has     *)
 (* ended every frame is gone (C07).                                        *)
 (***************************************************************************)
-EXTENDS EFBytecode, Json, TLC
+EXTENDS EFValues, EFBytecode, Json
 
 Progs == ndJsonDeserialize("progs.ndjson")
 Trace == ndJsonDeserialize("trace.ndjson")
@@ -42,6 +50,83 @@ vars == <<l, pi, frames, started, cancelled, after>>
 Init == l = 1 /\ pi = 0 /\ frames = <<>> /\ started = FALSE /\ cancelled = FALSE /\ after = 0
 
 Ev == Trace[l]
+
+\* ---- the value level ------------------------------------------------------------------
+U == <<"U">>                         \* a value the trace does not tell / the model does not follow
+Known(v) == v[1] # "U"
+\* values the model follows exactly: no floats (rounding), no hashes, no regexps
+RECURSIVE Followed(_)
+Followed(v) == CASE v[1] \in {"I", "S", "B", "N"} -> TRUE
+                 [] v[1] = "A" -> Len(v[2]) <= 6 /\ \A i \in 1..Len(v[2]) : Followed(v[2][i])
+                 [] OTHER -> FALSE
+Abs1(v) == IF Followed(v) THEN v ELSE U
+
+OpName(op) ==
+  CASE op = OpAdd -> "+" [] op = OpSub -> "-" [] op = OpMul -> "*" [] op = OpDiv -> "/" [] op = OpMod -> "%" [] op = OpPower -> "**"
+    [] op = OpLess -> "<" [] op = OpLessEqual -> "<=" [] op = OpGreater -> ">" [] op = OpGreaterEqual -> ">="
+    [] op = OpEqual -> "==" [] op = OpNotEqual -> "!=" [] op = OpAnd -> "&&" [] op = OpOr -> "||"
+    [] op = OpArrayIn -> "in" [] op = OpIndex -> "[]" [] op = OpRange -> ".."
+    [] OTHER -> "none"
+
+Drop(vs, n) == IF n >= Len(vs) THEN <<>> ELSE SubSeq(vs, 1, Len(vs) - n)
+TopV(vs, k) == IF Len(vs) > k THEN vs[Len(vs) - k] ELSE U          \* k = 0: the top
+
+\* What the instruction f (dispatched with value stack f.vs) computes: <<"push", v>> (v may be U),
+\* <<"fail">> (EFValues says the operation ends the run with an error), or <<"none">> (no value pushed)
+Computes(f) ==
+  LET vs == f.vs  op == f.op  a == f.arg  cv == Progs[pi].cvals IN
+  CASE op = OpPush -> <<"push", I(a)>>
+    [] op = OpConstant -> <<"push", IF a < Len(cv) THEN Abs1(cv[a + 1]) ELSE U>>
+    [] op = OpTrue -> <<"push", B(TRUE)>>
+    [] op = OpFalse -> <<"push", B(FALSE)>>
+    [] op \in {OpLookup, OpVoid, OpHash, OpCase, OpMatches, OpNotMatches, OpIterationReset} -> <<"push", U>>
+    [] OpName(op) # "none" ->
+         LET lft == TopV(vs, 1)  rgt == TopV(vs, 0) IN
+         IF Known(lft) /\ Known(rgt)
+         THEN (LET r == Bin(OpName(op), lft, rgt) IN
+               IF IsErr(r) THEN <<"fail">> ELSE IF IsSkip(r) THEN <<"push", U>> ELSE <<"push", Abs1(r)>>)
+         ELSE <<"push", U>>
+    [] op = OpBang -> IF Known(TopV(vs, 0)) THEN <<"push", Un("!", TopV(vs, 0))>> ELSE <<"push", U>>
+    [] op = OpMinus -> IF Known(TopV(vs, 0))
+                       THEN (LET r == Un("-", TopV(vs, 0)) IN IF IsErr(r) THEN <<"fail">> ELSE IF IsSkip(r) THEN <<"push", U>> ELSE <<"push", Abs1(r)>>)
+                       ELSE <<"push", U>>
+    [] op = OpSquareRoot -> IF Known(TopV(vs, 0)) /\ IsErr(Un("sqrt", TopV(vs, 0))) THEN <<"fail">> ELSE <<"push", U>>
+    [] op = OpArray -> IF a <= 6 /\ a <= Len(vs) /\ \A i \in 1..a : Known(vs[Len(vs) - a + i])
+                       THEN <<"push", A(SubSeq(vs, Len(vs) - a + 1, Len(vs)))>> ELSE <<"push", U>>
+    [] OTHER -> <<"none">>
+
+\* how many values the instruction takes off the stack (calls: arguments and the name)
+Pops(f) ==
+  CASE f.op \in BinaryOps -> 2
+    [] f.op \in UnaryOps \/ f.op \in {OpLocal, OpInc, OpDec, OpJumpIfFalse, OpIterationReset, OpReturn} -> 1
+    [] f.op = OpSet -> 2
+    [] f.op \in {OpArray, OpHash} -> f.arg
+    [] f.op = OpCall -> f.arg + 1
+    [] OTHER -> 0
+
+\* the value stack before the next instruction of the frame, which sees height sd2 and top tos2:
+\* [ok, vs]; ok = FALSE when the logged value contradicts what EFValues defines
+AfterValues(f, sd2, tos2) ==
+  LET c == Computes(f)
+      rest == Drop(f.vs, Pops(f)) IN
+  IF f.op = OpIterationNext THEN
+       \* the object stays (or goes) and true / false is pushed
+       (LET base == IF Len(f.bases) > 0 THEN f.bases[Len(f.bases)] ELSE f.sd - 2
+            keep == Drop(f.vs, Len(f.vs) - (base - 1)) IN
+        IF sd2 = base + 1 THEN [ok |-> (~Known(tos2) \/ tos2 = B(TRUE)), vs |-> keep \o <<U, B(TRUE)>>]
+                          ELSE [ok |-> (~Known(tos2) \/ tos2 = B(FALSE)), vs |-> keep \o <<B(FALSE)>>])
+  ELSE IF c[1] = "fail" THEN [ok |-> FALSE, vs |-> rest]           \* the run had to end here
+  ELSE IF f.op = OpCall THEN
+       (IF sd2 = Len(rest) + 1 THEN [ok |-> TRUE, vs |-> Append(rest, Abs1(tos2))] ELSE [ok |-> TRUE, vs |-> rest])
+  ELSE IF c[1] = "none" THEN [ok |-> TRUE, vs |-> rest]
+  ELSE LET want == c[2] IN
+       IF Known(want) THEN [ok |-> (~Known(tos2) \/ Abs1(tos2) = want \/ ~Followed(tos2)), vs |-> Append(rest, want)]
+       ELSE [ok |-> TRUE, vs |-> Append(rest, Abs1(tos2))]
+
+\* a conditional jump goes the way the truth of its operand says
+BranchOK(f, ip2) ==
+  (f.op = OpJumpIfFalse /\ Known(TopV(f.vs, 0))) =>
+     ip2 = (IF Truthy(TopV(f.vs, 0)) THEN f.ip + 3 ELSE f.arg)
 
 \* operand-stack heights allowed before the next instruction of the same frame, given the
 \* instruction f just dispatched in it; "bases" are the heights recorded by active foreach loops
@@ -76,7 +161,7 @@ NextBases(f, sd2) ==
          IF sd2 = base /\ Len(f.bases) > 0 THEN SubSeq(f.bases, 1, Len(f.bases) - 1) ELSE f.bases
     [] OTHER -> f.bases
 
-Frame(ev, bases) == [body |-> ev.body, ip |-> ev.ip, op |-> ev.op, arg |-> ev.arg, sd |-> ev.sd, bases |-> bases]
+Frame(ev, bases, vs) == [body |-> ev.body, ip |-> ev.ip, op |-> ev.op, arg |-> ev.arg, sd |-> ev.sd, bases |-> bases, vs |-> vs]
 
 \* the recorded instruction really is the instruction at that offset of that body
 Decodes(ev) ==
@@ -99,7 +184,7 @@ Cancel ==
 FirstStep ==
   /\ Ev.e = "step" /\ pi # 0 /\ ~started
   /\ Ev.fd = 0 /\ Ev.body = "main" /\ Ev.ip = 0 /\ Ev.sd = 0 /\ Decodes(Ev)
-  /\ frames' = <<Frame(Ev, <<>>)>> /\ started' = TRUE
+  /\ frames' = <<Frame(Ev, <<>>, <<>>)>> /\ started' = TRUE
   /\ after' = IF cancelled THEN after + 1 ELSE after
   /\ UNCHANGED <<pi, cancelled>>
 
@@ -110,7 +195,11 @@ SameFrame ==
      /\ Ev.body = f.body /\ Decodes(Ev)
      /\ Ev.ip \in NextIps(f)
      /\ Ev.sd \in NextHeights(f)
-     /\ frames' = [frames EXCEPT ![Len(frames)] = Frame(Ev, NextBases(f, Ev.sd))]
+     /\ BranchOK(f, Ev.ip)
+     /\ LET r == AfterValues(f, Ev.sd, Ev.tos) IN
+        /\ r.ok
+        /\ Len(r.vs) = Ev.sd
+        /\ frames' = [frames EXCEPT ![Len(frames)] = Frame(Ev, NextBases(f, Ev.sd), r.vs)]
   /\ after' = IF cancelled THEN after + 1 ELSE after
   /\ UNCHANGED <<pi, started, cancelled>>
 
@@ -120,7 +209,7 @@ Enter ==
   /\ frames[Len(frames)].op = OpCall
   /\ Ev.body # "main" /\ BodyOf(pi, Ev.body).isfn
   /\ Ev.ip = 0 /\ Ev.sd = 0 /\ Decodes(Ev)
-  /\ frames' = Append(frames, Frame(Ev, <<>>))
+  /\ frames' = Append(frames, Frame(Ev, <<>>, <<>>))
   /\ after' = IF cancelled THEN after + 1 ELSE after
   /\ UNCHANGED <<pi, started, cancelled>>
 
@@ -133,7 +222,13 @@ Leave ==
      /\ Ev.body = caller.body /\ Decodes(Ev)
      /\ Ev.ip = caller.ip + 3
      /\ Ev.sd \in NextHeights(caller)
-     /\ frames' = Append(SubSeq(frames, 1, Len(frames) - 2), Frame(Ev, caller.bases))
+     /\ LET rest == Drop(caller.vs, caller.arg + 1)
+            ret == TopV(frames[Len(frames)].vs, 0)               \* what the callee returned
+            vs2 == IF Ev.sd = Len(rest) + 1 THEN Append(rest, IF Known(ret) THEN ret ELSE Abs1(Ev.tos)) ELSE rest IN
+        /\ Len(vs2) = Ev.sd
+        \* the value the caller sees is the value the callee returned
+        /\ (Ev.sd = Len(rest) + 1 /\ Known(ret) /\ Followed(Ev.tos)) => Ev.tos = ret
+        /\ frames' = Append(SubSeq(frames, 1, Len(frames) - 2), Frame(Ev, caller.bases, vs2))
   /\ after' = IF cancelled THEN after + 1 ELSE after
   /\ UNCHANGED <<pi, started, cancelled>>
 
@@ -143,6 +238,7 @@ EndRun ==
   /\ Ev.e = "end" /\ pi # 0
   \* (a cancellation which arrives with the last instruction of the script does not fail the
   \* run: "a script that finishes before the deadline is unaffected"; PromptStop covers the rest)
+  /\ (Ev.ok /\ started => Computes(frames[Len(frames)])[1] # "fail")
   /\ (Ev.ok /\ started => /\ Len(frames) = 1
                           /\ LET f == frames[1] IN
                              \/ f.op = OpReturn
